@@ -1376,6 +1376,29 @@ compExitHandler(int status)
 	if (cmdTrapFlag) abort();
 }
 
+#ifdef ALDOR_VERIF
+#include <execinfo.h>
+#include <unistd.h>
+/*
+ * Verification hook: with ALDOR_VERIF_BT set, write the symbolic return
+ * addresses of the faulting stack to stderr so that a "Program fault" has
+ * a site.
+ */
+static void
+verifBacktrace(int signo)
+{
+	void	*bt[48];
+	int	n;
+	static const char head[] = "ALDOR_VERIF_BT begin\n";
+	static const char tail[] = "ALDOR_VERIF_BT end\n";
+	if (!getenv("ALDOR_VERIF_BT")) return;
+	n = backtrace(bt, 48);
+	if (write(2, head, sizeof(head) - 1) < 0) return;
+	backtrace_symbols_fd(bt, n, 2);
+	if (write(2, tail, sizeof(tail) - 1) < 0) return;
+}
+#endif
+
 void SignalModifier
 compSignalHandler(int signo)
 {
@@ -1402,6 +1425,9 @@ compSignalHandler(int signo)
  	else if (signo == SIGDANGER)	sigerr = ALDOR_E_SigDanger;
 	else				sigerr = ALDOR_E_SigUnknown;
 
+#ifdef ALDOR_VERIF
+	verifBacktrace(signo);
+#endif
         osDisplayMessage(comsgString(sigerr));
         comsgError(NULL, sigerr, signo);
 	fflush(dbOut);
